@@ -1,7 +1,7 @@
 # C02 support: reference scanner (written from docs/markdown/Syntax.md), the oracle, the defect classifiers.
 # Everything that touches mesonbuild goes through evaluate(); nothing here copies parser logic.
 from __future__ import annotations
-import collections, re, traceback
+import collections, re, sys, traceback
 import typing as T
 from verif import core  # noqa: F401  (puts VERIF_REPO first on sys.path)
 
@@ -121,11 +121,49 @@ def constructs(tree) -> T.List[T.Any]:
 _EXOTIC_BREAK = re.compile('[\r\x0b\x0c\x1c\x1d\x1e\x85  ]')
 
 
+_SPLIT_EXOTIC: T.Optional[bool] = None
+
+
+def rewriter_splits_exotic() -> bool:
+    """How does the REAL rewriter turn (line, column) into an offset?  Decided once per process by running the real
+    Rewriter on a file that has a form feed in a comment before the edited call: if the edit lands in the right
+    place the rewriter counts only '\\n' as a line end, otherwise it uses str.splitlines() (which also breaks at
+    form feed etc.).  rewriter_cut() mirrors whichever arithmetic the real code uses."""
+    global _SPLIT_EXOTIC
+    if _SPLIT_EXOTIC is not None:
+        return _SPLIT_EXOTIC
+    import tempfile, shutil, os
+    from verif.core import scratch_root
+    d = tempfile.mkdtemp(prefix='c02probe', dir=scratch_root())
+    try:
+        from mesonbuild import rewriter as rwm, mlog
+        mlog._logger.log_disable_stdout = True
+        with open(os.path.join(d, 'meson.build'), 'w') as f:
+            f.write("project('p', 'c')\n# a\x0cb\nexecutable('e', 'a.c')\n")
+        for n in ('a.c', 'b.c'):
+            open(os.path.join(d, n), 'w').close()
+        rw = rwm.Rewriter(d, skip_errors=True)
+        rw.analyze_meson()
+        rw.process({'type': 'target', 'target': 'e', 'operation': 'src_add', 'sources': ['b.c']})
+        rw.apply_changes()
+        out = open(os.path.join(d, 'meson.build'), newline='').read()
+        _SPLIT_EXOTIC = not (out.startswith("project('p', 'c')\n# a\x0cb\nexecutable(") and "'b.c'" in out and out.count('executable') == 1)
+    except Exception as e:       # probe impossible: assume the historical arithmetic
+        print('note: rewriter probe failed (%s: %s); assuming str.splitlines()' % (type(e).__name__, e), file=sys.stderr)
+        _SPLIT_EXOTIC = True
+    finally:
+        mlog_ = sys.modules.get('mesonbuild.mlog')
+        if mlog_ is not None:
+            mlog_._logger.log_disable_stdout = False
+        shutil.rmtree(d, ignore_errors=True)
+    return _SPLIT_EXOTIC
+
+
 def rewriter_cut(text: str, node) -> T.Optional[str]:
     """text[start:end] exactly as mesonbuild/rewriter.py apply_changes()/remove_node() computes it."""
     offsets = []
     off = 0
-    for ln in text.splitlines(True):
+    for ln in (text.splitlines(True) if rewriter_splits_exotic() else [l + '\n' for l in text.split('\n')]):
         offsets.append(off)
         off += len(ln)
     try:
